@@ -283,7 +283,7 @@ func LiveMPD(a *asset, mpdName string, cfg *ResponseConfig, drmCfg *drm.DrmConfi
 				return nil, fmt.Errorf("adjustASForTimelineTime: %w", err)
 			}
 			if asIdx == 0 {
-				mpd.PublishTime = m.ConvertToDateTime(calcPublishTime(cfg, se, wTimes))
+				mpd.PublishTime = publishTimeFromSeconds(calcPublishTime(cfg, se, wTimes))
 			}
 		case timeLineNumber:
 			err := adjustAdaptationSetForTimelineNr(cfg, se, as)
@@ -291,7 +291,7 @@ func LiveMPD(a *asset, mpdName string, cfg *ResponseConfig, drmCfg *drm.DrmConfi
 				return nil, fmt.Errorf("adjustASForTimelineNr: %w", err)
 			}
 			if asIdx == 0 {
-				mpd.PublishTime = m.ConvertToDateTime(calcPublishTime(cfg, se, wTimes))
+				mpd.PublishTime = publishTimeFromSeconds(calcPublishTime(cfg, se, wTimes))
 			}
 		case segmentNumber:
 			err := adjustAdaptationSetForSegmentNumber(cfg, a, as)
@@ -777,6 +777,12 @@ func addTimeSubs(cfg *ResponseConfig, a *asset, period *m.Period, languages []st
 		period.AppendAdaptationSet(as)
 	}
 	return nil
+}
+
+// publishTimeFromSeconds converts to a DateTime with milliseconds. The value is rounded to the nearest millisecond,
+// since a float64 such as 1899894680.03 is slightly below the decimal value and must not become ...680.029.
+func publishTimeFromSeconds(seconds float64) m.DateTime {
+	return m.ConvertToDateTimeMS(int64(math.Round(seconds * 1000)))
 }
 
 // calcPublishTime calculates the last time there was a change in the manifest in seconds.
